@@ -297,15 +297,17 @@ End Prims.
 
 (* ------------------------------------------------------------------ the excluded sites *)
 (* X = the panic sites the invariant [wfm] excludes (Model/Vm.v, Heap.v):
-   11 maybe_put_cell "expected ptr" - 13 get_as_cell: dangling Rc payload - 41 get_lambda -
+   11 maybe_put_cell "expected ptr" - 12 put_cell of a procedure / continuation / macro object (every
+   cell the compiler and the builtins store is a datum, [cell_is_datum]: repo fixes ba22108, 60f201f) -
+   13 get_as_cell: dangling Rc payload - 41 get_lambda -
    42 cur_lambda "%ip is not a procedure" - 43 env_slots - 45 global slot out of range -
    46 / 47 restore_continuation - 48 dec_ip - 49 / 50 / 51 stack_trace.
    NOT in X (need the frame discipline of compiled code, or belong to a builtin):
-   10 heap index (only through %ep), 12 put_cell of a procedure datum, 14 get_as_cell of a
+   10 heap index (only through %ep), 14 get_as_cell of a
    non-value, 40 usize underflow in frame arithmetic, 44 environment slot index, and the
    sites of the library builtins (20 = str_get/vec_get AND NumFmt.P_RADIX, 30 = location_operand
    AND ListVec.P_USIZE_UNDERFLOW: the numbering of the model collides there). *)
 Definition xsiteb (k : N) : bool :=
-  (k =? 11) || (k =? 13) || (k =? 41) || (k =? 42) || (k =? 43) || (k =? 45) || (k =? 46) || (k =? 47)
+  (k =? 11) || (k =? 12) || (k =? 13) || (k =? 41) || (k =? 42) || (k =? 43) || (k =? 45) || (k =? 46) || (k =? 47)
   || (k =? 48) || (k =? 49) || (k =? 50) || (k =? 51).
 Definition okp (k : N) : Prop := xsiteb k = false.
